@@ -50,7 +50,7 @@ META = {
         'numdifftools.step_generators.* (concrete side)'],
     'bounds': {
         'quick': 'methods central/forward/backward n<=4, complex n<=8, multicomplex n<=2; order 1..4; x in {0, 1e-3, 0.5, '
-                 '-2.5, 100} and one array; default generator and scalar step; real and complex coefficients',
+                 '-2.5, 100} and one array; default generator, scalar step and a default-constructed MinStepGenerator; real and complex coefficients',
         'thorough': 'central/forward/backward n<=6, complex n<=10; order 1..8; two further user generators; x array of shape (2,2)',
     },
     'outside_claim': ['every non-polynomial f of the C01 quantifier (truncation behaviour, accuracy envelope)',
@@ -90,8 +90,10 @@ def jobs(tier, seed):
                 if n == 0 and order > 2:
                     continue
                 for xk in (['x0', 'xsmall', 'xhalf', 'xneg', 'xbig', 'xarr'] + (['xarr22'] if th else [])):
-                    for sm in (['default', 'scalar'] + (['minopts', 'maxopts'] if th else [])):
+                    for sm in (['default', 'scalar', 'mingen'] + (['minopts', 'maxopts'] if th else [])):
                         if not th and xk in ('xsmall', 'xneg', 'xbig') and sm != 'default':
+                            continue
+                        if sm == 'mingen' and xk not in ('xhalf', 'xarr'):
                             continue
                         cplx_opts = [False]
                         if method in ('central', 'forward', 'backward') and xk in ('xhalf', 'xarr') and order in (1, 2):
@@ -107,6 +109,8 @@ def _step(stepmode, nd):
         return None
     if stepmode == 'scalar':
         return 0.25
+    if stepmode == 'mingen':
+        return nd.MinStepGenerator()          # user-supplied generator object, every option at its default
     if stepmode == 'minopts':
         return nd.MinStepGenerator(base_step=0.125, step_ratio=4.0, num_extrap=3, step_nom=1.0)
     if stepmode == 'maxopts':
